@@ -13,8 +13,8 @@ use sv_parser::Error;
 
 pub fn cases(tier: Tier) -> u64 {
     match tier {
-        Tier::Quick => 24000,
-        Tier::Thorough => 600000,
+        Tier::Quick => 160000,
+        Tier::Thorough => 3000000,
         Tier::Tiny => 16,
     }
 }
